@@ -876,6 +876,14 @@ func parseTypeSystemDefinition(parser *Parser) (ast.Node, error) {
 	if item, ok = tokenDefinitionFn[keywordToken.Value]; !ok {
 		return nil, unexpected(parser, keywordToken)
 	}
+	if peekDescription(parser) {
+		switch keywordToken.Value {
+		case "schema", "extend", "query", "mutation", "subscription", "fragment":
+			// these definitions take no description: the keyword is the
+			// first token that cannot continue the document
+			return nil, unexpected(parser, keywordToken)
+		}
+	}
 	return item(parser)
 }
 
